@@ -237,6 +237,8 @@ def run(cx, tier='quick'):
     include_own_scanners(cx, facts, rep, ['::hash::'])
     from .helpers import check_ident_or_index
     check_ident_or_index(cx, rep)
+    from .scope import check_scopes
+    check_scopes(cx, rep, ['::hash::'])
     rep.floor('SUM-HASH', 2)
     rep.assumptions += ['::core::hash::Hash::hash of usize/fields feeds data determined by the value', 'union Hash is covered by C20']
     rep.not_decided += ['whether a user field type\'s Hash distinguishes values (premise of the property)']
